@@ -163,3 +163,11 @@ MUTANTS = [
             "to": "Ok(SafeLong(value))"},
          expect=["C15.K.deserialize.i64", "C15.S.frame.constructors"]),
 ]
+
+# harmless edits: must NOT raise a violation (exit 0, or 2 when an anchor is legitimately lost)
+BENIGN = [
+    dict(name="new_conjuncts_swapped", file=F, **{"from": "value >= *SafeLong::min_value() && value <= *SafeLong::max_value()", "to": "value <= *SafeLong::max_value() && value >= *SafeLong::min_value()"}),
+    dict(name="max_value_written_differently", file=F, **{"from": "SafeLong((1 << 53) - 1)", "to": "SafeLong(0x1f_ffff_ffff_ffff)"}),
+    dict(name="deserialize_local_renamed", file=F, **{"from": "        let value = i64::deserialize(d)?;\n        SafeLong::new(value)\n            .map_err(|_| de::Error::invalid_value(de::Unexpected::Signed(value), &\"a safe long\"))",
+         "to": "        let raw = i64::deserialize(d)?;\n        SafeLong::new(raw)\n            .map_err(|_| de::Error::invalid_value(de::Unexpected::Signed(raw), &\"a safe long\"))"}),
+]
